@@ -222,7 +222,9 @@ def build_source(case):
             names.append(("c%d" % i, (11 if v != 0 else 22).to_bytes(4, "little"), "condition of ?:"))
     # address constants
     out.append("int *p0 = &garr[3] + 2 - 1; char *p1 = (char *)&gs.c + 3; long *p2 = &gsl[1 + 2]; const char *p3 = \"abcdef\" + 4; int *p4 = &gobj;"
-               " char *p5 = (char *)garr + sizeof(int) * 2; long *p6 = gsl + (EB - 3); int *p7 = &*&garr[1]; char *p8 = &(\"xyz\"[1]);")
+               " char *p5 = (char *)garr + sizeof(int) * 2; long *p6 = gsl + (EB - 3); int *p7 = &*&garr[1]; char *p8 = &(\"xyz\"[1]);"
+               " int *p9 = 2 + &garr[1]; int *p10 = 1 + (2 + garr); long p11 = 8 + (long)&garr[1]; long *p12 = 1 + (&gsl[3] - 2); char *p13 = 3 + ((char *)&gs + 2) - 1;"
+               " int *p14 = (1 + garr) + 1;")
     return "\n".join(out) + "\n", names
 
 
@@ -236,7 +238,8 @@ def vlit_plus1(it):
     return vlit(j)
 
 
-ADDR = {"p0": ("garr", 16), "p1": ("gs", 19), "p2": ("gsl", 24), "p4": ("gobj", 0), "p5": ("garr", 8), "p6": ("gsl", 16), "p7": ("garr", 4)}
+ADDR = {"p0": ("garr", 16), "p1": ("gs", 19), "p2": ("gsl", 24), "p4": ("gobj", 0), "p5": ("garr", 8), "p6": ("gsl", 16), "p7": ("garr", 4),
+        "p9": ("garr", 12), "p10": ("garr", 12), "p11": ("garr", 12), "p12": ("gsl", 16), "p13": ("gs", 4), "p14": ("garr", 8)}
 
 
 def const_check(case, ctx):
